@@ -256,7 +256,12 @@ impl Gen {
                     let new_name = if self.rng.gen_bool(0.5) { format!("{n}X") } else { n.clone() };
                     let new_formula = if self.rng.gen_bool(0.5) { f.clone() } else { "=Sheet1!$D$4".to_string() };
                     let scv: i64 = sc.map(|x| x as i64).unwrap_or(-1);
-                    let nsc: i64 = if self.rng.gen_bool(0.8) { scv } else { -1 };
+                    // scope changes in every direction: same / to global / to (another) sheet
+                    let nsc: i64 = match self.rng.gen_range(0..4) {
+                        0 | 1 => scv,
+                        2 => -1,
+                        _ => self.sheet(um),
+                    };
                     json!({"op": "upd_name", "name": n, "scope": scv, "new_name": new_name, "new_scope": nsc, "formula": new_formula})
                 } else {
                     json!({"op": "new_name", "name": "MyName", "scope": -1, "formula": "=Sheet1!$A$1"})
@@ -444,7 +449,18 @@ impl Gen {
             }
             34 => json!({"op": *self.pick(&["del_nstyle", "apply_nstyle"]), "name": "NoSuchStyle", "s": s, "r": r, "c": c, "w": 1, "h": 1}),
             35 => json!({"op": "create_nstyle", "name": *self.pick(&["Normal", ""]), "style": [], "includes": {}}),
-            36 => json!({"op": "upd_nstyle", "name": "NoSuchStyle", "new_name": "Z", "style": [], "includes": {}}),
+            36 => {
+                // rename a custom named style to a name that is already taken (with a formatting change)
+                let all = um.get_named_style_list();
+                let custom: Vec<&String> = all.iter().filter(|n| n.starts_with("NS")).collect();
+                if let Some(n) = custom.choose(&mut self.rng) {
+                    let taken: Vec<&String> = all.iter().filter(|x| x != n).collect();
+                    let t = taken.choose(&mut self.rng).map(|x| x.to_string()).unwrap_or("Normal".to_string());
+                    json!({"op": "upd_nstyle", "name": n, "new_name": t, "style": self.style_spec(), "includes": {"number_format": true, "font": true, "fill": true, "border": true, "alignment": true, "protection": true}})
+                } else {
+                    json!({"op": "upd_nstyle", "name": "NoSuchStyle", "new_name": "Z", "style": [], "includes": {}})
+                }
+            }
             37 => json!({"op": "add_cf", "s": *self.pick(&[s, bad_sheet]), "range": *self.pick(&["", "A0", "ZZZZ1", "A1:", "Sheet1!A1"]), "rule": self.cf_rule()}),
             38 => json!({"op": *self.pick(&["del_cf", "raise_cf", "lower_cf"]), "s": s, "idx": 77}),
             39 => json!({"op": "set_link", "s": *self.pick(&[bad_sheet, s]), "r": bad_r, "c": c, "link": {"type": "External", "target": "https://x.y", "tooltip": null}, "label": null}),
